@@ -1,27 +1,247 @@
+// Command lockedfile is the correspondence + oracle runner for C06 (exclusion) and C07
+// (Read/Write/Transform linearise; Transform rolls back).  VERIF_PROP selects the property.
+//
+//	(a) protocol: one API call per helper invocation under strace, compared with the model
+//	    program's operation list, and checked against the protocol rules directly;
+//	(b) C06: overlap-witness stress over processes x goroutines, scripted scenarios
+//	    (inherited descriptor, reader never sees a truncation, hand-over);
+//	(c) C07: timestamped multi-process histories checked by a register-linearisability
+//	    checker; Transform-increment stress;
+//	(d) C07: every single injectable fault of Transform (strace inject), direct oracle and
+//	    comparison with the model's faulty semantics.
+//
+// The helper is this same binary ("helper" as first argument), i.e. the checked tree's code.
 package main
 
 import (
 	"fmt"
 	"os"
+	"strings"
+	"time"
+
+	"verif/harness/common"
 )
 
-func stressWorker(a []string) {}
-func histWorker(a []string)   {}
+type runner struct {
+	f    *common.Flags
+	res  *common.Result
+	m    *common.Model
+	self string
+	prop string
+	rng  *common.RNG
+	st   bool // strace usable
+}
+
+func (rn *runner) violate(kind, oracle, key, detail, impl, model string, input map[string]string) {
+	rn.res.Violate(common.Violation{Kind: kind, Oracle: oracle, Input: input, Model: model, Impl: impl, Detail: detail, Key: key})
+}
 
 func main() {
 	if len(os.Args) > 1 && os.Args[1] == "helper" {
 		helperMain(os.Args[2:])
 		return
 	}
-	if len(os.Args) > 1 && os.Args[1] == "probe" {
-		self, _ := os.Executable()
-		r, evs, raw, err := straceCall(self, "/tmp/lf-scratch", os.Args[2], os.Args[3], os.Args[4], os.Args[5], nil)
-		fmt.Println(r, err)
-		for _, e := range evs {
-			fmt.Println("  ", e, e.Inj)
+	f := common.ParseFlags()
+	prop := os.Getenv("VERIF_PROP")
+	if prop == "" {
+		prop = "C06"
+	}
+	res := common.NewResult(prop, f.Tier, f.Seed)
+	self, err := os.Executable()
+	if err != nil {
+		fmt.Fprintln(os.Stderr, err)
+		os.Exit(2)
+	}
+	if f.Work == "" {
+		f.Work, _ = os.MkdirTemp("", "lockedfile-run")
+		defer os.RemoveAll(f.Work)
+	}
+	rn := &runner{f: f, res: res, self: self, prop: prop, rng: common.NewRNG(f.Seed)}
+	if f.Model != "" {
+		if m, err := common.StartModel(f.Model); err == nil {
+			rn.m = m
+			defer m.Close()
+		} else {
+			res.Notes = append(res.Notes, "model binary unavailable: "+err.Error())
 		}
-		if os.Getenv("RAW") != "" {
-			fmt.Println(raw)
+	}
+	ok, why := haveStrace(f.Work)
+	rn.st = ok
+	if !ok {
+		res.Notes = append(res.Notes, "strace unavailable ("+why+"): protocol correspondence and fault injection skipped; stress, scenario and history oracles still run")
+	}
+	res.Rule = "non-trivial = a call that reached the lock (flock observed) / a stress or history round with contention"
+
+	if f.Replay != "" {
+		rn.replay()
+		res.Write(f.Out)
+		return
+	}
+	rn.corpus()
+	start := time.Now()
+	if rn.st {
+		rn.protocolPhase()
+	}
+	if prop == "C06" {
+		rn.eintrPhase()
+		rn.stressPhase()
+		rn.scenarioPhase([]string{"inherit-write", "inherit-read", "quietread-write", "quietread-create", "handover-edit", "handover-mutex"})
+	} else {
+		if rn.st {
+			rn.faultPhase()
+		}
+		rn.histPhase()
+		rn.scenarioPhase([]string{"quietread-write", "quietread-create"})
+	}
+	res.Notes = append(res.Notes, fmt.Sprintf("runner phases took %.1fs", time.Since(start).Seconds()),
+		"short writes (a failing write that stored a prefix) cannot be produced by strace: covered by the Coq theorem only")
+	res.Write(f.Out)
+}
+
+// ---------------------------------------------------------------- (a) protocol
+
+func (rn *runner) protoOne(c protoCase) {
+	impl, model, rules, _, err := runProtoCase(rn.self, rn.f.Work, rn.m, c, "")
+	if err != nil {
+		rn.res.Notes = append(rn.res.Notes, "strace run failed for "+c.key()+": "+err.Error())
+		return
+	}
+	reached := strings.Contains(impl, "flock:")
+	rn.res.Case("proto "+c.key(), reached)
+	rn.res.Count("proto:" + c.Call)
+	rn.res.Count("proto-outcome:" + strings.SplitN(impl, ":", 2)[0][:2])
+	in := map[string]string{"kind": "proto", "call": c.Call, "arg": c.Arg, "file": c.File}
+	for _, r := range rules {
+		rn.violate("impl-violation", "protocol-rule:"+strings.Fields(r)[0], "proto-rule "+strings.Fields(r)[0]+" "+c.Call,
+			"observed system calls break the locking protocol: "+r, impl, "", in)
+	}
+	if model != "" && model != impl {
+		rn.violate("correspondence", "ops:"+c.Call, "proto-ops "+c.key(),
+			"system calls of the call differ from the model program's operations", impl, model, in)
+	}
+	if rn.res.Evaluations%37 == 1 {
+		rn.res.Sample(map[string]any{"case": c.key(), "impl": impl, "model": model})
+	}
+}
+
+func (rn *runner) protocolPhase() {
+	for _, c := range protoCases(rn.rng.Fork(), rn.f.Tier, rn.prop) {
+		rn.protoOne(c)
+	}
+}
+
+// EINTR on the first flock: the call must retry and behave as without it.
+func (rn *runner) eintrPhase() {
+	if !rn.st {
+		return
+	}
+	for _, c := range []protoCase{{"write", "78797a", "616263"}, {"read", "-", "616263"}, {"mutex", "-", "absent"}, {"transform", "7a7a", "616263"}} {
+		rn.eintrOne(c)
+	}
+}
+
+func (rn *runner) eintrOne(c protoCase) {
+	base, _, _, _, err := runProtoCase(rn.self, rn.f.Work, nil, c, "")
+	if err != nil {
+		return
+	}
+	impl, _, _, raw, err := runProtoCase(rn.self, rn.f.Work, nil, c, "flock:error=EINTR:when=1")
+	if err != nil {
+		return
+	}
+	rn.res.Case("eintr "+c.key(), true)
+	rn.res.Count("eintr:" + c.Call)
+	want := strings.Replace(base, "| ", "| ", 1)
+	got := strings.Replace(impl, " flock:1=err", "", 1)
+	got = strings.Replace(got, " flock:2=err", "", 1)
+	if !strings.Contains(raw, "INJECTED") {
+		rn.res.Count("eintr:not-hit")
+		return
+	}
+	if got != want {
+		rn.violate("impl-violation", "eintr-retry", "eintr "+c.Call,
+			"with flock interrupted once (EINTR) the call does not behave like the uninterrupted call", impl, base,
+			map[string]string{"kind": "eintr", "call": c.Call, "arg": c.Arg, "file": c.File})
+	}
+}
+
+// ---------------------------------------------------------------- (b) stress + scenarios
+
+func (rn *runner) stressRound(procs, gor, iters, npaths int, seed uint64) bool {
+	viols, counts, err := runStress(rn.self, rn.f.Work, procs, gor, iters, npaths, seed)
+	if err != nil {
+		rn.res.Notes = append(rn.res.Notes, "stress round could not be set up: "+err.Error())
+		return false
+	}
+	total := 0
+	for k, v := range counts {
+		rn.res.Distribution["stress:"+k] += v
+		total += v
+	}
+	rn.res.Evaluations += total
+	rn.res.Case(fmt.Sprintf("stress %d %d %d %d %d", procs, gor, iters, npaths, seed), true)
+	in := map[string]string{"kind": "stress", "procs": fmt.Sprint(procs), "goroutines": fmt.Sprint(gor),
+		"iters": fmt.Sprint(iters), "paths": fmt.Sprint(npaths), "seed": fmt.Sprint(seed)}
+	for _, v := range viols {
+		w := strings.Fields(v)
+		key := "stress"
+		if len(w) > 1 {
+			key = "stress " + w[1]
+		}
+		in2 := map[string]string{}
+		for k, x := range in {
+			in2[k] = x
+		}
+		in2["history"] = strings.Join(viols, "\n")
+		rn.violate("impl-violation", "overlap-witness:"+strings.TrimPrefix(key, "stress "), key, v, v, "", in2)
+	}
+	return len(viols) > 0
+}
+
+func (rn *runner) stressPhase() {
+	rounds, procs, gor, iters := 3, 6, 4, 150
+	if rn.f.Tier != "quick" {
+		rounds, procs, gor, iters = 12, 8, 6, 600
+	}
+	for r := 0; r < rounds; r++ {
+		if rn.stressRound(procs, gor, iters, 1+r%3, rn.rng.Uint64()%1000000) {
+			break
+		}
+	}
+}
+
+func (rn *runner) scenario(name string) scenarioResult {
+	parts := strings.SplitN(name, "-", 2)
+	switch parts[0] {
+	case "inherit":
+		return scenarioInherit(rn.self, rn.f.Work, parts[1])
+	case "quietread":
+		return scenarioQuietRead(rn.self, rn.f.Work, parts[1])
+	case "handover":
+		return scenarioHandover(rn.self, rn.f.Work, parts[1])
+	}
+	return scenarioResult{name: name, setup: "unknown scenario"}
+}
+
+func (rn *runner) scenarioPhase(names []string) {
+	reps := 2
+	if rn.f.Tier != "quick" {
+		reps = 6
+	}
+	for _, n := range names {
+		for i := 0; i < reps; i++ {
+			s := rn.scenario(n)
+			rn.res.Case(fmt.Sprintf("scenario %s %d", n, i), s.setup == "")
+			rn.res.Count("scenario:" + n)
+			if s.setup != "" {
+				rn.res.Notes = append(rn.res.Notes, "scenario "+n+" could not be set up: "+s.setup)
+				break
+			}
+			if s.viol != "" {
+				rn.violate("impl-violation", "scenario:"+s.viol, "scenario "+n+" "+s.viol, s.detail, s.detail, "",
+					map[string]string{"kind": "scenario", "name": n})
+				break
+			}
 		}
 	}
 }
